@@ -16,7 +16,7 @@ package connectors
 //@   property C16 C04
 //@   nosafety
 //@   atcall ReadEvents: false
-//@   order send:C after recv:readComplete
+//@   order trysend:C after recv:readComplete
 
 //@ func ReadSourceChannel.Start$2
 //@   property C16 C04
